@@ -1,6 +1,7 @@
 (* Proofs/TxProofs.v — M-TX: a transaction that fails before or at the database commit restores the whole file
    system (every path, hence the published part files and the temp/backup names) and leaves the committed
-   database state alone, provided the part ids touched in the transaction are pairwise distinct. *)
+   database state alone — for ALL programs (part ids may repeat): rollback hooks run last-registered-first, so
+   each one finds the directory exactly as its own pre-commit hook left it. *)
 From Verif Require Import Bytes Codec Tx.
 
 Lemma path_eqb_eq a b : path_eqb a b = true <-> a = b.
@@ -37,26 +38,6 @@ Ltac fs_simpl :=
 Lemma rename_frame a b fs p : p <> a -> p <> b -> fst (rename a b fs) p = fs p.
 Proof. intros Ha Hb. unfold rename. destruct (fs a); cbn; [now rewrite !fupd_other by assumption | reflexivity]. Qed.
 
-(* what a cell has done so far, relative to the file system fs0 at the start of the transaction *)
-Definition good (fs0 : fsys) (c : cell) (fs : fsys) : Prop :=
-  let F := PFinal (c_id c) in let T := PTemp (c_n c) in let Bk := PBackup (c_n c) in
-  fs0 T = None /\ fs0 Bk = None /\
-  match c_kind c, c_pub c, c_bc c with
-  | CPut, false, false => fs F = fs0 F /\ fs Bk = None
-  | CPut, false, true => False
-  | CPut, true, false => fs0 F = None /\ fs Bk = None /\ fs T = None
-  | CPut, true, true => fs Bk = fs0 F /\ fs T = None
-  | CDel, _, false => fs F = fs0 F /\ fs Bk = None /\ fs T = None
-  | CDel, _, true => fs Bk = fs0 F /\ fs F = None /\ fs T = None
-  end.
-
-Lemma good_frame fs0 c fs fs' :
-  good fs0 c fs -> (forall p, own c p -> fs' p = fs p) -> good fs0 c fs'.
-Proof.
-  unfold good, own. intros (H1 & H2 & H) Hf. split; [assumption|]. split; [assumption|].
-  rewrite !Hf by auto. exact H.
-Qed.
-
 Lemma rollback_frame c fs p : ~ own c p -> rollback_cell c fs p = fs p.
 Proof.
   unfold own. intros H.
@@ -64,59 +45,6 @@ Proof.
   assert (p <> PBackup (c_n c)) by tauto.
   unfold rollback_cell. destruct (c_kind c), (c_pub c), (c_bc c);
     repeat first [ rewrite rename_frame by assumption | rewrite fupd_other by assumption ]; reflexivity.
-Qed.
-
-Lemma rollback_restores fs0 c fs p : good fs0 c fs -> own c p -> rollback_cell c fs p = fs0 p.
-Proof.
-  unfold good, own, rollback_cell, rename. intros (H1 & H2 & H) Hp.
-  destruct (c_kind c), (c_pub c), (c_bc c); try contradiction.
-  - (* put, published, backup *)
-    destruct H as [Hb Ht]. rewrite fupd_other by discriminate. rewrite Hb.
-    destruct (fs0 (PFinal (c_id c))) eqn:EF; cbn; destruct Hp as [ -> | [ -> | -> ] ]; fs_simpl; congruence.
-  - destruct H as (HF & Hb & Ht). destruct Hp as [ -> | [ -> | -> ] ]; fs_simpl; congruence.
-  - destruct H as [HF Hb]. destruct Hp as [ -> | [ -> | -> ] ]; fs_simpl; congruence.
-  - (* del, backup *)
-    destruct H as (Hb & HF & Ht). rewrite Hb.
-    destruct (fs0 (PFinal (c_id c))) eqn:EF; cbn; destruct Hp as [ -> | [ -> | -> ] ]; fs_simpl; congruence.
-  - destruct H as (HF & Hb & Ht). destruct Hp as [ -> | [ -> | -> ] ]; congruence.
-  - destruct H as (Hb & HF & Ht). rewrite Hb.
-    destruct (fs0 (PFinal (c_id c))) eqn:EF; cbn; destruct Hp as [ -> | [ -> | -> ] ]; fs_simpl; congruence.
-  - destruct H as (HF & Hb & Ht). destruct Hp as [ -> | [ -> | -> ] ]; congruence.
-Qed.
-
-Definition pairwise_disjoint (cs : list cell) : Prop :=
-  NoDup (map c_id cs) /\ NoDup (map c_n cs).
-
-Lemma pairwise_tail c cs : pairwise_disjoint (c :: cs) -> pairwise_disjoint cs.
-Proof. intros [H1 H2]. cbn in *. inversion H1; inversion H2; split; assumption. Qed.
-Lemma pairwise_head c cs c' : pairwise_disjoint (c :: cs) -> In c' cs -> disjoint c c'.
-Proof.
-  intros [H1 H2] Hin. cbn in *. inversion H1; inversion H2; subst. split; intros E.
-  - apply H3. rewrite E. now apply in_map.
-  - apply H7. rewrite E. now apply in_map.
-Qed.
-
-Lemma rb_all_restores fs0 cs : forall fs,
-  pairwise_disjoint cs ->
-  (forall c, In c cs -> good fs0 c fs) ->
-  (forall p, (forall c, In c cs -> ~ own c p) -> fs p = fs0 p) ->
-  forall p, rb_all cs fs p = fs0 p.
-Proof.
-  induction cs as [|c r IH]; intros fs Hd Hg Hrest p; cbn.
-  - apply Hrest. intros c [].
-  - apply IH.
-    + eapply pairwise_tail; eauto.
-    + intros c' Hin. apply good_frame with fs; [apply Hg; now right|].
-      intros q Hq. apply rollback_frame. intros Hc.
-      apply (own_disjoint c c' q (pairwise_head _ _ _ Hd Hin)); assumption.
-    + intros q Hq. destruct (path_eqb q (PFinal (c_id c))) eqn:E1; [|
-        destruct (path_eqb q (PTemp (c_n c))) eqn:E2; [| destruct (path_eqb q (PBackup (c_n c))) eqn:E3]].
-      * apply path_eqb_eq in E1. apply rollback_restores; [apply Hg; now left | left; exact E1].
-      * apply path_eqb_eq in E2. apply rollback_restores; [apply Hg; now left | right; left; exact E2].
-      * apply path_eqb_eq in E3. apply rollback_restores; [apply Hg; now left | right; right; exact E3].
-      * assert (~ own c q).
-        { intros [ -> | [ -> | -> ] ]; rewrite path_eqb_refl in *; discriminate. }
-        rewrite rollback_frame by assumption. apply Hrest. intros c' [<-|Hin]; auto.
 Qed.
 
 (* ---- the pre-commit hook of one cell ---- *)
@@ -141,146 +69,9 @@ Proof.
     change fs1 with (fst (fs1, ok)); rewrite <- R1; now apply rename_frame.
 Qed.
 
-Lemma pre_cell_good fs0 fv c fs :
-  good fs0 c fs -> initial c ->
-  let '(c', fs', ok) := pre_cell fv c fs in
-  good fs0 c' fs' /\ same_names c c'.
-Proof.
-  unfold good, initial, same_names. intros (H1 & H2 & H) [Hbc Hpub]. rewrite Hbc, Hpub in H.
-  unfold pre_cell. destruct (Nat.eqb fv 1).
-  { rewrite Hbc, Hpub. destruct (c_kind c); auto. }
-  destruct (c_kind c) eqn:K.
-  - destruct H as [HF HB].
-    set (fsA := if Nat.eqb fv 2 then fupd fs (PTemp (c_n c)) None else fs).
-    assert (HAF : fsA (PFinal (c_id c)) = fs (PFinal (c_id c)))
-      by (unfold fsA; destruct (Nat.eqb fv 2); [now rewrite fupd_other by discriminate|reflexivity]).
-    assert (HAB : fsA (PBackup (c_n c)) = None)
-      by (unfold fsA; destruct (Nat.eqb fv 2); [now rewrite fupd_other by discriminate|assumption]).
-    unfold rename at 1. rewrite HAF.
-    destruct (fs (PFinal (c_id c))) as [old|] eqn:EF.
-    + (* the final file existed: backup created *)
-      unfold rename at 1. fs_simpl.
-      destruct (fsA (PTemp (c_n c))) as [t|] eqn:ET; cbn [c_kind c_pub c_bc c_id c_n set_flags fst snd].
-      * rewrite K. repeat split; auto; fs_simpl; congruence.
-      * unfold rename. fs_simpl. cbn [fst]. rewrite K. repeat split; auto; fs_simpl; congruence.
-    + unfold rename at 1. 
-      destruct (fsA (PTemp (c_n c))) as [t|] eqn:ET; cbn [c_kind c_pub c_bc c_id c_n set_flags fst snd].
-      * rewrite K. repeat split; auto; fs_simpl; congruence.
-      * rewrite K. repeat split; auto; congruence.
-  - destruct H as (HF & HB & HT). unfold rename.
-    destruct (fs (PFinal (c_id c))) as [old|] eqn:EF; cbn [c_kind c_pub c_bc c_id c_n set_flags fst snd]; rewrite K.
-    + destruct (c_pub c); repeat split; auto; fs_simpl; congruence.
-    + destruct (c_pub c); repeat split; auto; congruence.
-Qed.
-
-(* ---- the forward phases establish [good] for every registered cell ---- *)
+(* ---- names ---- *)
 Definition fresh (fs0 : fsys) : Prop := forall n, fs0 (PTemp n) = None /\ fs0 (PBackup n) = None.
 Definition unowned (cs : list cell) (p : path) : Prop := forall c, In c cs -> ~ own c p.
-
-Lemma unowned_names cs cs' p :
-  map c_id cs' = map c_id cs -> map c_n cs' = map c_n cs -> unowned cs p -> unowned cs' p.
-Proof.
-  intros Hi Hn H c' Hin Ho.
-  destruct Ho as [ -> | [ -> | -> ] ].
-  - assert (In (c_id c') (map c_id cs)) as Hm by (rewrite <- Hi; now apply in_map).
-    apply in_map_iff in Hm as (c & E & Hc). apply (H c Hc). left. now rewrite E.
-  - assert (In (c_n c') (map c_n cs)) as Hm by (rewrite <- Hn; now apply in_map).
-    apply in_map_iff in Hm as (c & E & Hc). apply (H c Hc). right; left. now rewrite E.
-  - assert (In (c_n c') (map c_n cs)) as Hm by (rewrite <- Hn; now apply in_map).
-    apply in_map_iff in Hm as (c & E & Hc). apply (H c Hc). right; right. now rewrite E.
-Qed.
-
-Lemma NoDup_app_intro_single {A} (l : list A) (x : A) : NoDup l -> ~ In x l -> NoDup (l ++ [x]).
-Proof.
-  intros Hl Hx. induction l as [|a l IH]; cbn.
-  - constructor; [intros []|constructor].
-  - inversion Hl; subst. constructor.
-    + intros Hin. apply in_app_or in Hin as [Hin | [ -> | [] ] ]; [contradiction|]. apply Hx. now left.
-    + apply IH; [assumption|]. intros Hin. apply Hx. now right.
-Qed.
-
-Lemma NoDup_app_l {A} (l r : list A) : NoDup (l ++ r) -> NoDup l.
-Proof.
-  induction l as [|a l IH]; cbn; intros H; [constructor|].
-  inversion H; subst. constructor; [|now apply IH].
-  intros Hin. apply H2. apply in_or_app; now left.
-Qed.
-
-Section Body.
-Variable D : Type.
-
-Lemma body_inv fs0 (Hfresh : fresh fs0) : forall (ss : list (tstep D)) n w fs cells,
-  (forall c, In c cells -> (c_n c < n)%nat /\ initial c) ->
-  NoDup (map c_id cells ++ prog_ids ss) ->
-  NoDup (map c_n cells) ->
-  (forall c, In c cells -> good fs0 c fs) ->
-  (forall p, unowned cells p -> fs p = fs0 p) ->
-  let '(w', fs', cells', ok) := body n ss w fs cells in
-  pairwise_disjoint cells' /\ (forall c, In c cells' -> initial c) /\
-  (forall c, In c cells' -> good fs0 c fs') /\ (forall p, unowned cells' p -> fs' p = fs0 p).
-Proof.
-  induction ss as [|s r IH]; intros n w fs cells Hn Hid Hnn Hg Hr.
-  - cbn. cbn in Hid. rewrite app_nil_r in Hid.
-    split; [split; assumption|]. split; [intros c Hc; apply Hn, Hc|]. split; assumption.
-  - destruct s as [f|id content|id|]; cbn [body].
-    + apply IH; auto. intros c Hc. destruct (Hn c Hc). split; [lia|assumption].
-    + (* PutPart: temp file written, cell registered *)
-      assert (Hidn : ~ In id (map c_id cells)).
-      { cbn in Hid. apply NoDup_remove_2 in Hid. intros Hin. apply Hid. apply in_or_app; now left. }
-      assert (Hnew : ~ In n (map c_n cells)).
-      { intros Hin. apply in_map_iff in Hin as (c0 & E & Hc0). destruct (Hn c0 Hc0). lia. }
-      assert (Hun : forall p, (p = PFinal id \/ p = PTemp n \/ p = PBackup n) -> unowned cells p).
-      { intros p Hp c0 Hc0 Ho. destruct (Hn c0 Hc0) as [Hlt _].
-        destruct Hp as [ -> | [ -> | -> ] ]; destruct Ho as [E|[E|E]]; inversion E; subst.
-        - apply Hidn. now apply in_map.
-        - lia.
-        - lia. }
-      apply IH.
-      * intros c0 Hc0. apply in_app_or in Hc0 as [Hc0 | [ <- | [] ] ].
-        -- destruct (Hn c0 Hc0). split; [lia|assumption].
-        -- cbn. split; [lia|split; reflexivity].
-      * rewrite map_app. cbn. rewrite <- app_assoc. exact Hid.
-      * rewrite map_app. cbn. apply NoDup_app_intro_single; assumption.
-      * intros c0 Hc0. apply in_app_or in Hc0 as [Hc0 | [ <- | [] ] ].
-        -- apply good_frame with fs; [now apply Hg|]. intros p Hp. apply fupd_other.
-           intros ->. eapply (Hun (PTemp n)); [right; left; reflexivity | exact Hc0 | exact Hp].
-        -- destruct (Hfresh n). unfold good; cbn [c_kind c_pub c_bc c_id c_n mk_cell]. repeat split; auto.
-           ++ rewrite fupd_other by discriminate. apply Hr, Hun; auto.
-           ++ rewrite fupd_other by discriminate. rewrite Hr by (apply Hun; auto). assumption.
-      * intros p Hp. assert (p <> PTemp n).
-        { intros ->. apply (Hp (mk_cell CPut id n)); [apply in_or_app; right; now left | right; left; reflexivity]. }
-        rewrite fupd_other by assumption. apply Hr. intros c0 Hc0. apply Hp. apply in_or_app; now left.
-    + (* DeletePart: cell registered *)
-      assert (Hidn : ~ In id (map c_id cells)).
-      { cbn in Hid. apply NoDup_remove_2 in Hid. intros Hin. apply Hid. apply in_or_app; now left. }
-      assert (Hnew : ~ In n (map c_n cells)).
-      { intros Hin. apply in_map_iff in Hin as (c0 & E & Hc0). destruct (Hn c0 Hc0). lia. }
-      assert (Hun : forall p, (p = PFinal id \/ p = PTemp n \/ p = PBackup n) -> unowned cells p).
-      { intros p Hp c0 Hc0 Ho. destruct (Hn c0 Hc0) as [Hlt _].
-        destruct Hp as [ -> | [ -> | -> ] ]; destruct Ho as [E|[E|E]]; inversion E; subst.
-        - apply Hidn. now apply in_map.
-        - lia.
-        - lia. }
-      apply IH.
-      * intros c0 Hc0. apply in_app_or in Hc0 as [Hc0 | [ <- | [] ] ].
-        -- destruct (Hn c0 Hc0). split; [lia|assumption].
-        -- cbn. split; [lia|split; reflexivity].
-      * rewrite map_app. cbn. rewrite <- app_assoc. exact Hid.
-      * rewrite map_app. cbn. apply NoDup_app_intro_single; assumption.
-      * intros c0 Hc0. apply in_app_or in Hc0 as [Hc0 | [ <- | [] ] ].
-        -- now apply Hg.
-        -- destruct (Hfresh n). unfold good; cbn [c_kind c_pub c_bc c_id c_n mk_cell]. repeat split; auto.
-           all: rewrite Hr by (apply Hun; auto); auto.
-      * intros p Hp. apply Hr. intros c0 Hc0. apply Hp. apply in_or_app; now left.
-    + (* the body returns an error *)
-      split; [split; [now apply NoDup_app_l in Hid | assumption]|].
-      split; [intros c Hc; apply Hn, Hc|]. split; assumption.
-Qed.
-End Body.
-
-(* ---- the pre-commit loop ---- *)
-Lemma own_same_names c c' p : same_names c c' -> own c' p -> own c p.
-Proof. unfold same_names, own. intros (_ & Hi & Hn). now rewrite Hi, Hn. Qed.
 
 (* a cell that recorded backupCreated still has its backup file *)
 Definition backed (c : cell) (fs : fsys) : Prop := c_bc c = true -> fs (PBackup (c_n c)) <> None.
@@ -302,43 +93,6 @@ Proof.
     + discriminate.
 Qed.
 
-Lemma pre_all_inv fs0 ft : forall cs i fs,
-  pairwise_disjoint cs -> (forall c, In c cs -> initial c) -> (forall c, In c cs -> good fs0 c fs) ->
-  let '(cs', fs', ok) := pre_all ft i cs fs in
-  map c_id cs' = map c_id cs /\ map c_n cs' = map c_n cs /\
-  (forall c, In c cs' -> good fs0 c fs') /\ (forall p, unowned cs p -> fs' p = fs p) /\
-  (ok = true -> forall c, In c cs' -> backed c fs').
-Proof.
-  induction cs as [|c r IH]; intros i fs Hd Hi Hg; cbn [pre_all].
-  - split; [reflexivity|]. split; [reflexivity|]. split; [intros c []|]. split; [reflexivity|]. intros _ c [].
-  - pose proof (pre_cell_good fs0 (fv_at ft i) c fs (Hg c (or_introl eq_refl)) (Hi c (or_introl eq_refl))) as Hpc.
-    pose proof (pre_cell_backed (fv_at ft i) c fs (Hi c (or_introl eq_refl))) as Hbk.
-    pose proof (pre_cell_frame (fv_at ft i) c fs) as Hfr.
-    destruct (pre_cell (fv_at ft i) c fs) as [[c' fs1] ok] eqn:E. cbn [fst snd] in Hfr.
-    destruct Hpc as [Hgc' Hsn].
-    assert (Hgr : forall c2, In c2 r -> good fs0 c2 fs1).
-    { intros c2 Hc2. apply good_frame with fs; [apply Hg; now right|].
-      intros p Hp. apply Hfr. intros Hc. apply (own_disjoint c c2 p (pairwise_head _ _ _ Hd Hc2)); assumption. }
-    destruct Hsn as (Hk & Hid & Hn).
-    destruct ok.
-    + specialize (IH (S i) fs1 (pairwise_tail _ _ Hd) (fun c2 H => Hi c2 (or_intror H)) Hgr).
-      destruct (pre_all ft (S i) r fs1) as [[r' fs2] ok'] eqn:E2.
-      destruct IH as (Hmi & Hmn & Hg2 & Hf2 & Hb2).
-      assert (Hown : forall p, own c' p -> unowned r p).
-      { intros p Hp c2 Hc2 Ho. apply (own_disjoint c c2 p (pairwise_head _ _ _ Hd Hc2)); [|assumption].
-        apply own_same_names with c'; [repeat split; assumption | assumption]. }
-      split; [cbn; congruence|]. split; [cbn; congruence|]. split; [|split].
-      * intros c2 [<-|Hc2]; [|now apply Hg2]. apply good_frame with fs1; [assumption|].
-        intros p Hp. apply Hf2, Hown, Hp.
-      * intros p Hp. rewrite Hf2 by (intros c2 Hc2; apply Hp; now right). apply Hfr. apply Hp. now left.
-      * intros -> c2 [<-|Hc2]; [|now apply Hb2].
-        intros Hbc. rewrite Hf2; [now apply Hbk|]. apply Hown. right; right; reflexivity.
-    + split; [cbn; congruence|]. split; [cbn; congruence|]. split; [|split].
-      * intros c2 [<-|Hc2]; [assumption | now apply Hgr].
-      * intros p Hp. apply Hfr. apply Hp. now left.
-      * discriminate.
-Qed.
-
 (* ---- after-commit hooks never fail by themselves ---- *)
 Lemma after_all_ok ft : (forall j, ft <> FAfter j) -> forall cs j fs,
   NoDup (map c_n cs) -> (forall c, In c cs -> backed c fs) -> snd (after_all ft j cs fs) = true.
@@ -355,37 +109,294 @@ Proof.
   - cbv beta iota. apply IH; [assumption|]. intros c2 Hc2. apply Hb. now right.
 Qed.
 
+
+Lemma NoDup_app_intro_single {A} (l : list A) (x : A) : NoDup l -> ~ In x l -> NoDup (l ++ [x]).
+Proof.
+  intros Hl Hx. induction l as [|a l IH]; cbn.
+  - constructor; [intros []|constructor].
+  - inversion Hl; subst. constructor.
+    + intros Hin. apply in_app_or in Hin as [Hin | [ -> | [] ] ]; [contradiction|]. apply Hx. now left.
+    + apply IH; [assumption|]. intros Hin. apply Hx. now right.
+Qed.
+
+Lemma pre_cell_names fv c fs : c_n (fst (fst (pre_cell fv c fs))) = c_n c.
+Proof.
+  unfold pre_cell. destruct (Nat.eqb fv 1); [reflexivity|]. destruct (c_kind c).
+  - destruct (rename _ _ _) as [fs1 bc]. destruct (rename _ _ fs1) as [fs2 ok].
+    destruct ok; [reflexivity|]. destruct bc; reflexivity.
+  - destruct (rename _ _ _) as [fs1 ok]. reflexivity.
+Qed.
+
+(* the pre-commit loop touches only paths owned by its cells *)
+Lemma pre_all_frame_names ft : forall cs i fs p,
+  unowned cs p -> snd (fst (pre_all ft i cs fs)) p = fs p.
+Proof.
+  induction cs as [|c r IH]; intros i fs p Hu; cbn [pre_all]; [reflexivity|].
+  pose proof (pre_cell_frame (fv_at ft i) c fs p (Hu c (or_introl eq_refl))) as Hc.
+  destruct (pre_cell (fv_at ft i) c fs) as [[c' fs1] ok]. cbn [fst snd] in Hc.
+  destruct ok; [|cbn; exact Hc].
+  specialize (IH (S i) fs1 p (fun c2 H => Hu c2 (or_intror H))).
+  destruct (pre_all ft (S i) r fs1) as [[r' fs2] ok']. cbn [fst snd] in *. congruence.
+Qed.
+
+(* ---- locality: a rollback hook reads and writes only its cell's own paths ---- *)
+Lemma own_dec c p : {own c p} + {~ own c p}.
+Proof.
+  unfold own.
+  destruct (path_eqb p (PFinal (c_id c))) eqn:E1; [left; left; now apply path_eqb_eq|].
+  destruct (path_eqb p (PTemp (c_n c))) eqn:E2; [left; right; left; now apply path_eqb_eq|].
+  destruct (path_eqb p (PBackup (c_n c))) eqn:E3; [left; right; right; now apply path_eqb_eq|].
+  right. intros [ -> | [ -> | -> ] ]; rewrite path_eqb_refl in *; discriminate.
+Qed.
+
+Lemma rollback_local c fs1 fs2 :
+  (forall q, own c q -> fs1 q = fs2 q) -> forall p, own c p -> rollback_cell c fs1 p = rollback_cell c fs2 p.
+Proof.
+  unfold own. intros H p Hp.
+  assert (HF : fs1 (PFinal (c_id c)) = fs2 (PFinal (c_id c))) by (apply H; auto).
+  assert (HT : fs1 (PTemp (c_n c)) = fs2 (PTemp (c_n c))) by (apply H; auto).
+  assert (HB : fs1 (PBackup (c_n c)) = fs2 (PBackup (c_n c))) by (apply H; auto).
+  unfold rollback_cell, rename.
+  destruct (c_kind c), (c_pub c), (c_bc c); fs_simpl; try rewrite HB;
+    try (destruct (fs2 (PBackup (c_n c))); cbn [fst]);
+    destruct Hp as [ -> | [ -> | -> ] ]; fs_simpl; auto.
+Qed.
+
+Lemma rollback_ext c fs1 fs2 : (forall q, fs1 q = fs2 q) -> forall p, rollback_cell c fs1 p = rollback_cell c fs2 p.
+Proof.
+  intros H p. destruct (own_dec c p) as [Ho|Hn].
+  - apply rollback_local; auto.
+  - now rewrite !rollback_frame by assumption.
+Qed.
+
+(* ---- undoing one cell: whatever its pre-commit hook did (completed or failed, with or without an injected
+   fault), its rollback hook gives back the file system the hook started from, minus PutPart's temp file ---- *)
+Definition tclear (c : cell) (fs : fsys) : fsys :=
+  match c_kind c with CPut => fupd fs (PTemp (c_n c)) None | CDel => fs end.
+
+Lemma undo_cell fv c fs :
+  initial c -> fs (PBackup (c_n c)) = None ->
+  let '(c', fs', ok) := pre_cell fv c fs in forall p, rollback_cell c' fs' p = tclear c fs p.
+Proof.
+  unfold initial. intros [Hbc Hpub] HB. unfold pre_cell, tclear.
+  destruct (Nat.eqb fv 1).
+  { intros p. unfold rollback_cell. rewrite Hbc, Hpub. destruct (c_kind c); reflexivity. }
+  destruct (c_kind c) eqn:K.
+  - set (fsA := if Nat.eqb fv 2 then fupd fs (PTemp (c_n c)) None else fs).
+    assert (HAF : fsA (PFinal (c_id c)) = fs (PFinal (c_id c)))
+      by (unfold fsA; destruct (Nat.eqb fv 2); [now rewrite fupd_other by discriminate|reflexivity]).
+    assert (HAB : fsA (PBackup (c_n c)) = None)
+      by (unfold fsA; destruct (Nat.eqb fv 2); [now rewrite fupd_other by discriminate|assumption]).
+    assert (HAT : forall p, p <> PTemp (c_n c) -> fsA p = fs p)
+      by (intros p Hp; unfold fsA; destruct (Nat.eqb fv 2); [now rewrite fupd_other|reflexivity]).
+    unfold rename at 1. rewrite HAF.
+    destruct (fs (PFinal (c_id c))) as [old|] eqn:EF.
+    + unfold rename at 1. fs_simpl.
+      destruct (fsA (PTemp (c_n c))) as [t|] eqn:ET.
+      * intros p. unfold rollback_cell, rename. cbn [c_kind c_pub c_bc c_id c_n set_flags fst snd]. rewrite K. fs_simpl.
+        cbn [fst]. destruct (own_dec c p) as [[ -> | [ -> | -> ] ]|Hn]; fs_simpl; try congruence.
+        unfold own in Hn. rewrite !fupd_other by tauto. apply HAT; tauto.
+      * unfold rename at 1. fs_simpl. cbn [fst].
+        intros p. unfold rollback_cell. cbn [c_kind c_pub c_bc c_id c_n set_flags]. rewrite K.
+        destruct (own_dec c p) as [[ -> | [ -> | -> ] ]|Hn]; fs_simpl; try congruence.
+        unfold own in Hn. rewrite !fupd_other by tauto. apply HAT; tauto.
+    + unfold rename at 1.
+      destruct (fsA (PTemp (c_n c))) as [t|] eqn:ET.
+      * intros p. unfold rollback_cell. cbn [c_kind c_pub c_bc c_id c_n set_flags]. rewrite K.
+        destruct (own_dec c p) as [[ -> | [ -> | -> ] ]|Hn]; fs_simpl; try congruence.
+        unfold own in Hn. rewrite !fupd_other by tauto. apply HAT; tauto.
+      * intros p. unfold rollback_cell. cbn [c_kind c_pub c_bc c_id c_n set_flags]. rewrite K.
+        destruct (own_dec c p) as [[ -> | [ -> | -> ] ]|Hn]; fs_simpl; try congruence.
+        unfold own in Hn. rewrite !fupd_other by tauto. apply HAT; tauto.
+  - unfold rename. destruct (fs (PFinal (c_id c))) as [old|] eqn:EF.
+    + intros p. unfold rollback_cell, rename. cbn [c_kind c_pub c_bc c_id c_n set_flags fst snd]. rewrite K. fs_simpl.
+      cbn [fst]. destruct (own_dec c p) as [[ -> | [ -> | -> ] ]|Hn]; fs_simpl; try congruence.
+      unfold own in Hn. now rewrite !fupd_other by tauto.
+    + intros p. unfold rollback_cell. cbn [c_kind c_pub c_bc c_id c_n set_flags fst snd]. now rewrite K.
+Qed.
+
+(* clearing the temp files of a list of cells, pointwise *)
+Definition is_put_temp (cs : list cell) (p : path) : bool :=
+  existsb (fun c => match c_kind c with CPut => path_eqb p (PTemp (c_n c)) | CDel => false end) cs.
+
+Lemma tclears_spec cs fs p :
+  fold_right tclear fs cs p = if is_put_temp cs p then None else fs p.
+Proof.
+  induction cs as [|c r IH]; cbn [fold_right is_put_temp existsb]; [reflexivity|].
+  unfold tclear at 1. destruct (c_kind c); cbn [orb].
+  - unfold fupd. destruct (path_eqb p (PTemp (c_n c))); cbn [orb]; [reflexivity | exact IH].
+  - exact IH.
+Qed.
+
+Lemma rb_all_initial cs fs : (forall c, In c cs -> initial c) -> rb_all cs fs = fold_right tclear fs cs.
+Proof.
+  unfold rb_all. induction cs as [|c r IH]; intros Hi; cbn [fold_right]; [reflexivity|].
+  rewrite IH by (intros c2 H; apply Hi; now right).
+  destruct (Hi c (or_introl eq_refl)) as [Hbc Hpub].
+  unfold rollback_cell, tclear. rewrite Hbc, Hpub. destruct (c_kind c); reflexivity.
+Qed.
+
+Lemma is_put_temp_not_own c r p :
+  ~ In (c_n c) (map c_n r) -> is_put_temp r p = true -> ~ own c p.
+Proof.
+  intros Hn H. unfold is_put_temp in H. apply existsb_exists in H as (c2 & Hc2 & E).
+  destruct (c_kind c2); [|discriminate]. apply path_eqb_eq in E. subst p.
+  intros [E|[E|E]]; inversion E. apply Hn. replace (c_n c) with (c_n c2) by congruence. now apply in_map.
+Qed.
+
+(* rolling back cell c commutes with clearing the temp files of cells with other names *)
+Lemma rollback_over_tclears c r X p :
+  ~ In (c_n c) (map c_n r) ->
+  rollback_cell c (fold_right tclear X r) p = if is_put_temp r p then None else rollback_cell c X p.
+Proof.
+  intros Hn. destruct (own_dec c p) as [Ho|Hno].
+  - destruct (is_put_temp r p) eqn:E; [exfalso; exact (is_put_temp_not_own c r p Hn E Ho)|].
+    apply rollback_local; [|assumption]. intros q Hq. rewrite tclears_spec.
+    destruct (is_put_temp r q) eqn:Eq; [exfalso; exact (is_put_temp_not_own c r q Hn Eq Hq) | reflexivity].
+  - rewrite !rollback_frame by assumption. apply tclears_spec.
+Qed.
+
+(* ---- the pre-commit loop followed by the LIFO rollback: everything is undone ---- *)
+Lemma pre_all_names ft : forall cs i fs,
+  map c_n (fst (fst (pre_all ft i cs fs))) = map c_n cs.
+Proof.
+  induction cs as [|c r IH]; intros i fs; cbn [pre_all]; [reflexivity|].
+  pose proof (pre_cell_names (fv_at ft i) c fs) as Hn.
+  destruct (pre_cell (fv_at ft i) c fs) as [[c' fs1] ok]. cbn [fst] in Hn.
+  destruct ok.
+  - specialize (IH (S i) fs1). destruct (pre_all ft (S i) r fs1) as [[r' fs2] ok']. cbn [fst map] in *. congruence.
+  - cbn [fst map]. congruence.
+Qed.
+
+Lemma pre_all_undo ft : forall cs i fs,
+  NoDup (map c_n cs) -> (forall c, In c cs -> initial c) ->
+  (forall c, In c cs -> fs (PBackup (c_n c)) = None) ->
+  let '(cs', fs', ok) := pre_all ft i cs fs in
+  forall p, rb_all cs' fs' p = fold_right tclear fs cs p.
+Proof.
+  induction cs as [|c r IH]; intros i fs Hnd Hi HB; cbn [pre_all]; [reflexivity|].
+  cbn [map] in Hnd. inversion Hnd as [|x l Hnotin Hndr]; subst.
+  pose proof (undo_cell (fv_at ft i) c fs (Hi c (or_introl eq_refl)) (HB c (or_introl eq_refl))) as Hu.
+  pose proof (pre_cell_frame (fv_at ft i) c fs) as Hfr.
+  pose proof (pre_cell_names (fv_at ft i) c fs) as Hcn.
+  destruct (pre_cell (fv_at ft i) c fs) as [[c' fs1] ok]. cbn [fst snd] in Hfr, Hcn.
+  assert (Hnotin' : ~ In (c_n c') (map c_n r)) by (rewrite Hcn; exact Hnotin).
+  assert (Hfinish : forall Y, (forall p, Y p = fold_right tclear fs1 r p) ->
+            forall p, rollback_cell c' Y p = fold_right tclear fs (c :: r) p).
+  { intros Y HY p. rewrite (rollback_ext c' Y (fold_right tclear fs1 r) HY).
+    rewrite rollback_over_tclears by assumption. rewrite Hu.
+    rewrite tclears_spec. cbn [is_put_temp existsb]. fold (is_put_temp r p).
+    unfold tclear. destruct (c_kind c); cbn [orb].
+    - unfold fupd. destruct (path_eqb p (PTemp (c_n c))), (is_put_temp r p); reflexivity.
+    - reflexivity. }
+  destruct ok.
+  - assert (HB1 : forall c2, In c2 r -> fs1 (PBackup (c_n c2)) = None).
+    { intros c2 Hc2. rewrite Hfr; [apply HB; now right|].
+      intros [E|[E|E]]; inversion E. apply Hnotin. rewrite <- H0. now apply in_map. }
+    specialize (IH (S i) fs1 Hndr (fun c2 H => Hi c2 (or_intror H)) HB1).
+    destruct (pre_all ft (S i) r fs1) as [[r' fs2] ok'].
+    intros p. change (rb_all (c' :: r') fs2) with (rollback_cell c' (rb_all r' fs2)).
+    apply Hfinish. exact IH.
+  - intros p. change (rb_all (c' :: r) fs1) with (rollback_cell c' (rb_all r fs1)).
+    apply Hfinish. intros q. now rewrite rb_all_initial by (intros c2 H; apply Hi; now right).
+Qed.
+
+Lemma pre_all_backed ft : forall cs i fs,
+  NoDup (map c_n cs) -> (forall c, In c cs -> initial c) ->
+  let '(cs', fs', ok) := pre_all ft i cs fs in
+  ok = true -> forall c, In c cs' -> backed c fs'.
+Proof.
+  induction cs as [|c r IH]; intros i fs Hnd Hi; cbn [pre_all]; [intros _ c []|].
+  cbn [map] in Hnd. inversion Hnd as [|x l Hnotin Hndr]; subst.
+  pose proof (pre_cell_backed (fv_at ft i) c fs (Hi c (or_introl eq_refl))) as Hbk.
+  pose proof (pre_cell_names (fv_at ft i) c fs) as Hcn.
+  destruct (pre_cell (fv_at ft i) c fs) as [[c' fs1] ok]. cbn [fst] in Hcn.
+  destruct ok; [|discriminate].
+  specialize (IH (S i) fs1 Hndr (fun c2 H => Hi c2 (or_intror H))).
+  pose proof (pre_all_frame_names ft r (S i) fs1 (PBackup (c_n c'))) as Hf.
+  destruct (pre_all ft (S i) r fs1) as [[r' fs2] ok']. cbn [fst snd] in Hf.
+  intros -> c2 [ <- | Hc2]; [|now apply IH].
+  intros Hbc. rewrite Hf; [now apply Hbk|].
+  intros c3 Hc3 [E|[E|E]]; inversion E. apply Hnotin. rewrite <- Hcn, H0. now apply in_map.
+Qed.
+
+(* ---- the body ---- *)
+Section Body.
+Variable D : Type.
+
+Lemma body_inv fs0 (Hfresh : fresh fs0) : forall (ss : list (tstep D)) n w fs cells,
+  (forall c, In c cells -> (c_n c < n)%nat /\ initial c) ->
+  NoDup (map c_n cells) ->
+  (forall m, fs (PBackup m) = None) ->
+  (forall m, (n <= m)%nat -> fs (PTemp m) = None) ->
+  (forall p, fold_right tclear fs cells p = fs0 p) ->
+  let '(w', fs', cells', ok) := body n ss w fs cells in
+  NoDup (map c_n cells') /\ (forall c, In c cells' -> initial c) /\
+  (forall m, fs' (PBackup m) = None) /\ (forall p, fold_right tclear fs' cells' p = fs0 p).
+Proof.
+  induction ss as [|s r IH]; intros n w fs cells Hn Hnn HB HT Hclr.
+  - cbn. split; [assumption|]. split; [intros c Hc; apply Hn, Hc|]. split; assumption.
+  - assert (Hnew : ~ In n (map c_n cells)).
+    { intros Hin. apply in_map_iff in Hin as (c0 & E & Hc0). destruct (Hn c0 Hc0). lia. }
+    destruct s as [f|id content|id|]; cbn [body].
+    + apply IH; auto.
+      * intros c Hc. destruct (Hn c Hc). split; [lia|assumption].
+      * intros m Hm. apply HT. lia.
+    + apply IH.
+      * intros c0 Hc0. apply in_app_or in Hc0 as [Hc0 | [ <- | [] ] ].
+        -- destruct (Hn c0 Hc0). split; [lia|assumption].
+        -- cbn. split; [lia|split; reflexivity].
+      * rewrite map_app. cbn. apply NoDup_app_intro_single; assumption.
+      * intros m. rewrite fupd_other by discriminate. apply HB.
+      * intros m Hm. rewrite fupd_other by (intros E; inversion E; lia). apply HT. lia.
+      * intros p. rewrite tclears_spec. rewrite <- Hclr, tclears_spec.
+        unfold is_put_temp. rewrite existsb_app. cbn [existsb c_kind c_n mk_cell]. rewrite orb_false_r.
+        fold (is_put_temp cells p). destruct (is_put_temp cells p); cbn [orb]; [reflexivity|].
+        unfold fupd. destruct (path_eqb p (PTemp n)) eqn:E; [|reflexivity].
+        apply path_eqb_eq in E. subst p. symmetry. apply HT. lia.
+    + apply IH.
+      * intros c0 Hc0. apply in_app_or in Hc0 as [Hc0 | [ <- | [] ] ].
+        -- destruct (Hn c0 Hc0). split; [lia|assumption].
+        -- cbn. split; [lia|split; reflexivity].
+      * rewrite map_app. cbn. apply NoDup_app_intro_single; assumption.
+      * assumption.
+      * intros m Hm. apply HT. lia.
+      * intros p. rewrite tclears_spec. rewrite <- Hclr, tclears_spec.
+        unfold is_put_temp. rewrite existsb_app. cbn [existsb c_kind c_n mk_cell]. rewrite orb_false_r. reflexivity.
+    + split; [assumption|]. split; [intros c Hc; apply Hn, Hc|]. split; assumption.
+Qed.
+End Body.
+
 Section Run.
 Variable D : Type.
 
 Theorem run_tx_rollback (prog : list (tstep D)) ft dbc fs0 :
-  fresh fs0 -> NoDup (prog_ids prog) -> (forall j, ft <> FAfter j) ->
+  fresh fs0 -> (forall j, ft <> FAfter j) ->
   let '(ok, db', fs') := run_tx ft prog dbc fs0 in
   ok = false -> db' = dbc /\ forall p, fs' p = fs0 p.
 Proof.
-  intros Hfresh Hnd Hft. unfold run_tx.
+  intros Hfresh Hft. unfold run_tx.
   pose proof (body_inv D fs0 Hfresh prog 0 dbc fs0 []
-                (fun c (H : In c []) => match H with end) Hnd (NoDup_nil _)
-                (fun c (H : In c []) => match H with end) (fun p _ => eq_refl)) as Hb.
+                (fun c (H : In c []) => match H with end) (NoDup_nil _)
+                (fun m => proj2 (Hfresh m)) (fun m _ => proj1 (Hfresh m)) (fun p => eq_refl)) as Hb.
   destruct (body 0 prog dbc fs0 []) as [[[w fs1] cells] ok] eqn:EB.
-  destruct Hb as (Hpd & Hinit & Hgood & Hrest).
+  destruct Hb as (Hnd & Hinit & HB & Hclr).
   destruct ok; cbn [negb]; cbv iota.
-  2:{ intros _. split; [reflexivity|]. apply rb_all_restores; assumption. }
-  pose proof (pre_all_inv fs0 ft cells 0 fs1 Hpd Hinit Hgood) as Hp.
-  destruct (pre_all ft 0 cells fs1) as [[cells' fs2] ok2] eqn:EP.
-  destruct Hp as (Hmi & Hmn & Hg2 & Hf2 & Hb2).
-  assert (Hpd' : pairwise_disjoint cells') by (destruct Hpd; split; congruence).
-  assert (Hrest' : forall p, unowned cells' p -> fs2 p = fs0 p).
-  { intros p Hp. assert (unowned cells p) by (apply unowned_names with cells'; auto).
-    rewrite Hf2 by assumption. now apply Hrest. }
+  2:{ intros _. split; [reflexivity|]. intros p. rewrite rb_all_initial by assumption. apply Hclr. }
+  pose proof (pre_all_undo ft cells 0 fs1 Hnd Hinit (fun c _ => HB (c_n c))) as Hu.
+  pose proof (pre_all_backed ft cells 0 fs1 Hnd Hinit) as Hbk.
+  pose proof (pre_all_names ft cells 0 fs1) as Hnm.
+  destruct (pre_all ft 0 cells fs1) as [[cells' fs2] ok2] eqn:EP. cbn [fst] in Hnm.
+  assert (Hrb : forall p, rb_all cells' fs2 p = fs0 p) by (intros p; rewrite Hu; apply Hclr).
   destruct ok2; cbn [negb]; cbv iota.
-  2:{ intros _. split; [reflexivity|]. apply rb_all_restores; assumption. }
+  2:{ intros _. split; [reflexivity | exact Hrb]. }
+  assert (Hnd' : NoDup (map c_n cells')) by (rewrite Hnm; exact Hnd).
   destruct ft as [|i v| |j].
-  - pose proof (after_all_ok FNone Hft cells' 0 fs2 (proj2 Hpd') (Hb2 eq_refl)) as Ha.
+  - pose proof (after_all_ok FNone Hft cells' 0 fs2 Hnd' (Hbk eq_refl)) as Ha.
     destruct (after_all FNone 0 cells' fs2) as [fs3 ok3]. cbn in Ha. subst. discriminate.
-  - pose proof (after_all_ok (FPre i v) Hft cells' 0 fs2 (proj2 Hpd') (Hb2 eq_refl)) as Ha.
+  - pose proof (after_all_ok (FPre i v) Hft cells' 0 fs2 Hnd' (Hbk eq_refl)) as Ha.
     destruct (after_all (FPre i v) 0 cells' fs2) as [fs3 ok3]. cbn in Ha. subst. discriminate.
-  - intros _. split; [reflexivity|]. apply rb_all_restores; assumption.
+  - intros _. split; [reflexivity | exact Hrb].
   - now destruct (Hft j).
 Qed.
 End Run.
